@@ -310,7 +310,7 @@ pub fn generate(rng: &mut Rng, allow_tasks: bool) -> Workload {
     let mut error_line = None;
     let mut error_file = None;
     let mut extra_files: Vec<(String, String)> = vec![];
-    match rng.below(12) {
+    match rng.below(14) {
         9..=11 => {
             // the failing operation's value is not used at all (an expression statement that is
             // not the last one): it must still stop the program
@@ -368,8 +368,22 @@ pub fn generate(rng: &mut Rng, allow_tasks: bool) -> Workload {
                 5 => ("[1, 2, 3][x]", "error: indexed past the end of an array", "oob"),
                 6 => ("panic(\"boom \" .. x)\n    x", "panic: `boom 41`", "panic"),
                 7 => ("9223372036854775807 + x", "error: integer overflow/underflow", "overflow"),
-                _ => ("x % (x - x)", "error: division by zero", "mod0"),
+                8 => ("x % (x - x)", "error: division by zero", "mod0"),
+                // the smallest int (computed: it has no literal) against -1 held in a variable:
+                // which error this is is the implementation's business, that it is one is not
+                12 => match rng.below(3) {
+                    0 => ("let lo = 0 - 9223372036854775807 - (x - 40)\n    let m1 = 40 - x\n    lo / m1", "error: ", "min-div-minus-one"),
+                    1 => ("let lo = 0 - 9223372036854775807 - (x - 40)\n    let m1 = 40 - x\n    lo % m1", "error: ", "min-mod-minus-one"),
+                    _ => ("let lo = 0 - 9223372036854775807 - (x - 40)\n    let m1 = 40 - x\n    lo * m1", "error: ", "min-mul-minus-one"),
+                },
+                _ => match rng.below(3) {
+                    0 => ("let lo = 0 - 9223372036854775807 - (x - 40)\n    0 - lo", "error: ", "zero-minus-min"),
+                    1 => ("let lo = 0 - 9223372036854775807 - (x - 40)\n    -lo", "error: ", "negate-min"),
+                    _ => ("let lo = 0 - 9223372036854775807 - (x - 40)\n    lo - (x - 40)", "error: ", "min-minus-one"),
+                },
             };
+            // the failing operation is the last line of a multi-line body
+            let fail_offset = if k >= 12 { body.matches('\n').count() as u32 } else { 0 };
             let levels = format!(
                 "fn level3(x: int) -> int {{\n    {body}\n}}\nfn level2(x: int) -> int {{\n    level3(x) + 1\n}}\nfn level1(x: int) -> int {{\n    level2(x) + 1\n}}\n"
             );
@@ -378,14 +392,14 @@ pub fn generate(rng: &mut Rng, allow_tasks: bool) -> Workload {
                 extra_files.push(("util.abra".to_string(), format!("// helpers\n{levels}")));
                 src = src.replacen("use simhost\n", "use simhost\nuse util\n", 1);
                 src.push_str("level1(41)\n");
-                error_line = Some(3);
+                error_line = Some(3 + fail_offset);
                 error_file = Some("util.abra".to_string());
                 descr.push(format!("error:{what}:in-imported-file"));
             } else {
                 let line = src.matches('\n').count() as u32 + 2;
                 src.push_str(&levels);
                 src.push_str("level1(41)\n");
-                error_line = Some(line);
+                error_line = Some(line + fail_offset);
                 descr.push(format!("error:{what}"));
             }
             error_prefix = Some(prefix.to_string());
